@@ -476,3 +476,28 @@ def _glencoe_ctc(draw, names, feats):
 GLENCOE_3P = Profile(unicode_names(), single=("mandatory", "optional"), group=("alternative", "or", "mutex", "card"),
                      layout="one_group", group_plus_mandatory=True, abstract=False, ctc_max=4,
                      ctc_names=_ctc_names_distinct)
+
+
+# ------------------------------------------------------------------ Clafer
+def clafer_names():
+    pool = ["a b", "x-y", "my feat", "AND", "OR", "NOT", "XOR", "x OR y", "1st", "é", "a+b", "q?", "p:q", "not", "xor", "or"]
+    free = st.text(alphabet=st.sampled_from(string.ascii_letters + string.digits + " _-+*/,;!#%&|@^~<>="), min_size=1,
+                   max_size=6).map(lambda s: s.strip() or "z")
+    reserved = {"not", "xor", "or", "mux", "opt", "abstract", "all", "no", "some", "one", "lone", "if", "then", "else",
+                "in", "this", "parent", "ref", "enum", "min", "max", "sum", "product", "assert"}
+    return st.one_of(ident_names(6), ident_names(6), st.sampled_from(pool), free).map(
+        lambda s: s + "_" if s in reserved else s)
+
+
+def _clafer_attrs(draw, fname):
+    if draw(st.integers(0, 2)):
+        return []
+    names_ = draw(st.lists(st.one_of(ident_names(5), st.sampled_from(["my attr", "x-y", "cost", "w"])), min_size=1,
+                           max_size=2, unique=True))
+    vals = st.one_of(st.booleans(), st.integers(-1000, 1000), plain_floats(),
+                     st.text(alphabet=string.ascii_letters + string.digits + " _-", max_size=5))
+    return [{"name": n, "value": draw(vals)} for n in names_]
+
+
+CLAFER = Profile(clafer_names(), single=("mandatory", "optional"), group=("alternative", "or", "mutex", "card"),
+                 layout="one_group", abstract=False, attrs=_clafer_attrs, ctc_max=4, ctc_depth=3)
